@@ -124,6 +124,12 @@ class Ctx:
                 rj["exec_lines"] = (a, b)
                 key = keyfn(rj, lines) if keyfn else "%s/%s" % (rj["pid"], rj["clause"])
                 rj["key"] = key
+                if rj["pid"] == "EXTRA":
+                    # behaviour the specification covers beyond the listed properties: informative, never a verdict
+                    self.notes.append("beyond-the-list behaviour differs from the specification (%s): %s" % (rj["clause"], evline[:160]))
+                    self.cov.setdefault("beyond_the_list_mismatches", 0)
+                    self.cov["beyond_the_list_mismatches"] += 1
+                    continue
                 if rj["pid"] != self.pid and rj["pid"] != "*":
                     self.notes.append("rejection owned by %s (clause %s) left to that property's check"
                                       % (rj["pid"], rj["clause"]))
